@@ -316,8 +316,27 @@ def check_overflow(ctx, db):
               'no product of two 64-bit grid quantities is formed in integer arithmetic; the slit abscissa is computed in double',
               'a product of two 64-bit grid coordinates/differences is computed in integer arithmetic (wraps for differences around 3e9, well inside the admissible range): %s' % (norm(bad[0].text())[:120] if bad else 'temp is not computed in double'))
     k, roles = minmax.check_minmax(ctx.sub(), f)
-    mp = [x for x in f.walk() if is_assign(x) and norm(x.child('lhs').text()).endswith('.min_point')]
-    ok = any(a.k == 'IfStmt' and re.match(r'^point_less\(\(\*v?\w+\), \(\*\w+\.min_point\)\)$', norm(a.child('cond').text())) for x in mp for a in x.ancestors())
+    # running minimum by the comparator, in whatever variables: `if (point_less(*cand, *best)) best = cand;` inside a loop (of link_holes
+    # or of a file-local helper): the candidate replaces the best exactly when it is smaller
+    ok = False
+    for fn_, _w in db.with_helpers([f]):
+        for i_ in fn_.walk():
+            if i_.k != 'IfStmt' or not any(a.k in ('ForStmt', 'WhileStmt', 'DoStmt') for a in i_.ancestors()):
+                continue
+            c_ = _strip_casts(i_.child('cond'))
+            if c_ is None or c_.k != 'CallExpr' or not (c_.callee or '').endswith('point_less') or len(c_.args) != 2:
+                continue
+            def pointee(e):
+                e = _strip_casts(e)
+                while e is not None and e.k in ('MaterializeTemporaryExpr', 'CXXConstructExpr') and e.c:
+                    e = _strip_casts(e.c[0])
+                if e is not None and ((e.k == 'UnaryOperator' and e.op == '*') or (e.k == 'CXXOperatorCallExpr' and e.op == '*')):
+                    return norm((e.child('sub') or (e.args[0] if e.args else e.c[0])).text())
+                return None
+            cand, best = pointee(c_.args[0]), pointee(c_.args[1])
+            for x in (i_.child('then').walk() if i_.child('then') is not None else []):
+                if is_assign(x) and cand is not None and best is not None and norm(x.child('lhs').text()) == best and norm(x.child('rhs').text()).replace('ClipperLib::Path::iterator{', '').rstrip('}') in (cand, cand):
+                    ok = True
     ctx.check(ok, 'R-MINMAX', 'link_holes/min_point', f.loc(), 'each hole is attached at its lexicographically smallest vertex (running minimum by point_less)')
     check_ray_hits(ctx, db, f)
     pl = db.fn('gdstk::point_less')
